@@ -45,6 +45,7 @@ func runC05(c *Ctx) {
 	c.Clause("C05.10 both unpackers parse the protected header fields only after DecryptHeader (the repository's stated precondition of ParseShortHeader)")
 	c.Clause("C05.9 the unpacker's indexing and slicing of a received packet (sample, packet-number bytes, AEAD input) is in bounds: compiler-proven, length fact from the 'packet too small' guards, or one of 8 frozen exceptions (cross-call header lengths, packet-number length 1..4)")
 	c.Clause("C05.8 rollKeys re-initialises every …WithCurrentKey field; GetRetryIntegrityTag resets the shared buffer before releasing its mutex")
+	c.Clause("C05.12 the 0-RTT opener is dropped only once the handshake completion time is set (both crypto setups); C05.13 every caller of encryptPacket checks payload ≥ 4 - packet-number length first (header-protection sample inside the packet)")
 	c.NotCovered("seal/open equality and AEAD correctness")
 	c.NotCovered("DecodePacketNumber arithmetic and reordering windows")
 
@@ -60,6 +61,8 @@ func runC05(c *Ctx) {
 	c.rule("C05.9", func() { c05UnpackerBounds(c) })
 	c.rule("C05.10", func() { c05ParseAfterUnprotect(c) })
 	c.rule("C05.11", func() { c05HPKeyLength(c) })
+	c.rule("C05.12", func() { c05ZeroRTTKeysKeptUntilHandshakeComplete(c) })
+	c.rule("C05.13", func() { c05SampleInsidePacket(c) })
 }
 
 // globalBytes evaluates a package-level `[]byte{...}` / `[N]byte{...}` variable initialiser.
